@@ -217,7 +217,7 @@ fn check(program: &Vec<TIns>, st: &mut Stats) -> CheckResult {
 fn run(cfg: &Cfg) -> Report {
     let mut rep = Report::new(
         cfg,
-        "proptest programs of 3-12 TypedGen instructions (each 1-4 statements) that are dimensionally consistent by construction: every expression is generated for a requested dimension vector from literals with prelude units of that dimension (base-unit products or named derived units), variables, + - * /, powers with integer, rational, decimal and composite compile-time exponents in ASCII and Unicode spellings, conditionals, conversions, sqrt/sqr/cbrt/abs/max/min, list functions, user-defined generic functions (annotated and inferred) instantiated at several dimensions, annotated functions, structs, lists, user dimensions with base and derived units, asserts. Each statement is evaluated as its own input. Oracle: no statement is rejected; run-time failures are limited to the documented value-dependent kinds, never a unit incompatibility; the checker's type of every definition equals the requested vector; the raw run-time value of every global, struct field and list element carries a unit whose dimension (RefDim over the direct unit definitions) equals that vector. non-trivial = the program has a rational/composite power, a generic function at >= 2 dimensions, or a struct/list of quantities, and ran to the end; distinct = program text",
+        "proptest programs of 3-12 TypedGen instructions (each 1-4 statements) that are dimensionally consistent by construction: every expression is generated for a requested dimension vector from literals with prelude units of that dimension (base-unit products or named derived units), variables, + - * /, powers with integer, rational, decimal and composite compile-time exponents in ASCII and Unicode spellings, conditionals, conversions, sqrt/sqr/cbrt/abs/max/min, list functions, user-defined generic functions (annotated and inferred) instantiated at several dimensions, annotated functions, structs, lists, user dimensions with base and derived units, asserts, zeroth powers, exponents that contain `^` themselves, and redefinitions of a global at another dimension followed by a function that reads it. Each statement is evaluated as its own input. Oracle: no statement is rejected; run-time failures are limited to the documented value-dependent kinds, never a unit incompatibility; the checker's type of every definition equals the requested vector; the raw run-time value of every global, struct field and list element carries a unit whose dimension (RefDim over the direct unit definitions) equals that vector. non-trivial = the program has a rational/composite power, a generic function at >= 2 dimensions, or a struct/list of quantities, and ran to the end; distinct = program text",
     );
     let cases = cfg.tier.pick(1500u32, 20000u32);
     rep.absorb(run_proptest(
